@@ -187,7 +187,7 @@ func sameSlot(m *Module, a, b *ssa.Function) bool {
 }
 
 func wrapperSlot(m *Module, w *ssa.Function) string {
-	if rn := recvNamed(w); rn != nil && rn.Obj().Name() == "owners" {
+	if rn := recvNamed(w); rn != nil && tname(rn.Obj()) == "owners" {
 		if s := ownersSlots(m, w); len(s) == 1 {
 			return s[0]
 		}
@@ -195,7 +195,7 @@ func wrapperSlot(m *Module, w *ssa.Function) string {
 	}
 	for _, ci := range calls(w) {
 		g := m.callee(ci.Common())
-		if rn := recvNamed(g); rn != nil && rn.Obj().Name() == "owners" {
+		if rn := recvNamed(g); rn != nil && tname(rn.Obj()) == "owners" {
 			if s := ownersSlots(m, g); len(s) == 1 {
 				return s[0]
 			}
